@@ -8,33 +8,35 @@
    /usr/bin/git by vlib/c12.py):
 
      C12_profile_pins / C12_config_independent
-        for EVERY configuration and EVERY argument vector in which (a) no pinned option occurs
-        before the subcommand or after `--` and (b) every option the strip leaves in place is tame
-        (does not take a separate value and does not override a pinned component), the format
-        components the profile pins have their canonical values — whatever the configuration says.
-     C12_drop_complete   (b) is automatic for single-token options, for every pinned component
+        for EVERY configuration and EVERY argument vector in which every option the strip leaves in
+        place is tame (does not take a separate value and does not override a pinned component),
+        the format components the profile pins have their canonical values — whatever the
+        configuration says, and whatever stands before the subcommand or after `--`.
+     C12_pins_present   every pinned option is in the option region of the result, for every
+        argument vector with a subcommand (the already-present test looks at the option region
+        only: C12_pin_not_shadowed is the former counterexample, a pathspec named --no-ext-diff).
+     C12_drop_complete   tameness is automatic for single-token options, for every pinned component
         of every profile except (PatchParse, diff algorithm): every overriding token is dropped.
      C12_nodash_tame     tokens that do not start with a dash (revisions, object names) are tame.
-     The three hypotheses are necessary: C12_algorithm_override_refuted (--patience survives),
-     C12_split_value_override_refuted (`--inter-hunk-context 3` as two tokens survives),
-     C12_pin_shadowed_refuted (a pathspec equal to a pinned option suppresses the pin: known
-     class C12-K2, reproduced on the binary with a file named --no-ext-diff and diff.external).
-     Hence the unrestricted statement is false: C12_profile_pins_all_args_refuted.
+     The tameness hypothesis is necessary: C12_algorithm_override_refuted (--patience survives),
+     C12_split_value_override_refuted (`--inter-hunk-context 3` as two tokens survives); hence the
+     unrestricted statement is false: C12_profile_pins_all_args_refuted.  No internal caller passes
+     such options (C12_inventory_pinned: lits_ok).
      C12_inventory_pinned  every internal invocation template of the generated inventory whose
         output is parsed fixes the components its parser depends on (by the profile, by a literal
-        option, or because the command is plumbing), up to the listed exceptions, each of which is
-        needed.
-     C12_global_args_normalised / C12_global_mix_refuted   find_repository rewrites exactly the
-        shapes [] and [-C x]; every other shape of global args is left as typed (known class
-        C12-K1 when the effective directory is a strict subdirectory).
+        option, or because the command is plumbing); status is run with an explicit
+        --untracked-files; up to the listed exceptions, each of which is needed.
+     C12_global_args_normalised / C12_global_args_end_in_root   find_repository turns [] and [-C x]
+        into [-C root]; every other shape keeps its options (relative --git-dir / --work-tree made
+        absolute) and gets a final `-C root`, so that a well-formed vector always ends up in root.
 
    NOT pinned (residual assumptions, see vlib/c12.py ASSUMPTIONS): core.quotePath for patch text
    (handled by the unquoting parser: Properties/C01_fmt.v C01_fmt_quotepath_independent; path
    LISTS are read with -z: nul_paths_ok); the number of context lines and rename detection for
-   PatchParse (passed literally by the callers: -U0 --no-renames, checked per template by
-   C12_inventory_pinned); the pager (global --no-pager: C12_no_pager); abbreviated long options
-   (git accepts unambiguous prefixes such as --no-pref; the table knows full spellings only);
-   status.showUntrackedFiles (known class C12-K3). *)
+   PatchParse and RawDiffParse (passed literally by the callers: -U0 --no-renames, checked per
+   template by C12_inventory_pinned); the pager (global --no-pager: C12_no_pager); abbreviated
+   long options (git accepts unambiguous prefixes such as --no-pref; the table knows full
+   spellings only). *)
 From Coq Require Import List NArith Bool.
 From Verif Require Import Base.Str Gen.GenProfile Gen.GenInternalGit Model.Profile Proofs.ProfileProofs.
 Import ListNotations.
@@ -54,22 +56,22 @@ Proof. exact strip_safe. Qed.
 Print Assumptions C12_strip_safe.
 
 Theorem C12_pins_present : forall p args g s r o,
-  find_sub args = Some (g, s, r) -> In o (profile_options p) -> ~ In o g -> ~ In o (from_dd r) ->
+  find_sub args = Some (g, s, r) -> In o (profile_options p) ->
   exists r', find_sub (args_with_internal_git_profile p args) = Some (g, s, r') /\
              In o (before_dd r') /\ from_dd r' = from_dd r /\
-             (~ In o r -> count_str o (args_with_internal_git_profile p args) = 1%nat).
+             (~ In o (before_dd r) -> count_str o (before_dd r') = 1%nat).
 Proof. exact pins_present. Qed.
 Print Assumptions C12_pins_present.
 
 Theorem C12_profile_pins : forall p cfg args g s r,
   find_sub args = Some (g, s, r) ->
-  pins_not_outside p g r -> survivors_tame p r ->
+  survivors_tame p r ->
   fmt_agree_on (pinned_comps p) (effective_fmt cfg (args_with_internal_git_profile p args)) (canonical_fmt p).
 Proof. exact profile_pins. Qed.
 Print Assumptions C12_profile_pins.
 
 Theorem C12_config_independent : forall p cfg1 cfg2 args g s r,
-  find_sub args = Some (g, s, r) -> pins_not_outside p g r -> survivors_tame p r ->
+  find_sub args = Some (g, s, r) -> survivors_tame p r ->
   fmt_agree_on (pinned_comps p)
     (effective_fmt cfg1 (args_with_internal_git_profile p args))
     (effective_fmt cfg2 (args_with_internal_git_profile p args)).
@@ -86,55 +88,52 @@ Theorem C12_nodash_tame : forall p t, is_dash t = false -> tame p t = true.
 Proof. exact nodash_tame. Qed.
 Print Assumptions C12_nodash_tame.
 
-(* ---- the hypotheses are necessary *)
+(* ---- the hypothesis is necessary *)
 
 Definition wit_patience : list str := [s2l "diff"; s2l "--patience"; s2l "HEAD"].
 Definition wit_split : list str := [s2l "diff"; s2l "--inter-hunk-context"; s2l "3"; s2l "HEAD"].
+(* a pathspec equal to a pinned option *)
 Definition wit_shadow : list str := [s2l "diff"; s2l "-U0"; s2l "HEAD"; s2l "--"; s2l "--no-ext-diff"].
 
 Theorem C12_algorithm_override_refuted :
-  exists g s r, find_sub wit_patience = Some (g, s, r) /\ pins_not_outside PatchParse g r /\
+  exists g s r, find_sub wit_patience = Some (g, s, r) /\
     canonical PatchParse CAlgorithm = Some (s2l "default") /\
     effective [] (args_with_internal_git_profile PatchParse wit_patience) CAlgorithm = Some (s2l "patience").
 Proof.
   exists [], (s2l "diff"), [s2l "--patience"; s2l "HEAD"].
-  split; [vm_compute; reflexivity|]. split; [|split; vm_compute; reflexivity].
-  intros o Ho. split; [intros []|]. vm_compute. intros [].
+  split; [vm_compute; reflexivity|]. split; vm_compute; reflexivity.
 Qed.
 Print Assumptions C12_algorithm_override_refuted.
 
 Theorem C12_split_value_override_refuted :
-  exists g s r, find_sub wit_split = Some (g, s, r) /\ pins_not_outside PatchParse g r /\
+  exists g s r, find_sub wit_split = Some (g, s, r) /\
     canonical PatchParse CInterHunk = Some (s2l "0") /\
     effective [] (args_with_internal_git_profile PatchParse wit_split) CInterHunk = Some (s2l "3").
 Proof.
   exists [], (s2l "diff"), [s2l "--inter-hunk-context"; s2l "3"; s2l "HEAD"].
-  split; [vm_compute; reflexivity|]. split; [|split; vm_compute; reflexivity].
-  intros o Ho. split; [intros []|]. vm_compute. intros [].
+  split; [vm_compute; reflexivity|]. split; vm_compute; reflexivity.
 Qed.
 Print Assumptions C12_split_value_override_refuted.
 
-(* known class C12-K2: a pathspec equal to a pinned option *)
-Theorem C12_pin_shadowed_refuted :
+(* the former counterexample of class C12-K2 (a pathspec equal to a pinned option): the pin is inserted *)
+Theorem C12_pin_not_shadowed :
   exists g s r, find_sub wit_shadow = Some (g, s, r) /\ survivors_tame PatchParse r /\
-    canonical PatchParse CExtDiff = Some v_off /\
-    ~ In (s2l "--no-ext-diff") (before_dd (match find_sub (args_with_internal_git_profile PatchParse wit_shadow) with
-                                           | Some (_, _, r') => r' | None => [] end)) /\
-    effective [] (args_with_internal_git_profile PatchParse wit_shadow) CExtDiff = Some v_on.
+    In (s2l "--no-ext-diff") (before_dd (match find_sub (args_with_internal_git_profile PatchParse wit_shadow) with
+                                         | Some (_, _, r') => r' | None => [] end)) /\
+    effective [(s2l "diff.external", s2l "/bin/x")] (args_with_internal_git_profile PatchParse wit_shadow) CExtDiff = Some v_off.
 Proof.
   exists [], (s2l "diff"), [s2l "-U0"; s2l "HEAD"; s2l "--"; s2l "--no-ext-diff"].
   split; [vm_compute; reflexivity|]. split.
   - intros t Ht _. vm_compute in Ht. destruct Ht as [Ht|[Ht|[]]]; subst; vm_compute; reflexivity.
-  - split; [vm_compute; reflexivity|]. split; [|vm_compute; reflexivity].
-    vm_compute. intuition discriminate.
+  - split; [vm_compute; tauto|vm_compute; reflexivity].
 Qed.
-Print Assumptions C12_pin_shadowed_refuted.
+Print Assumptions C12_pin_not_shadowed.
 
 Theorem C12_profile_pins_all_args_refuted :
   exists p cfg args g s r c, find_sub args = Some (g, s, r) /\ In c (pinned_comps p) /\
     fmt_get (effective_fmt cfg (args_with_internal_git_profile p args)) c <> fmt_get (canonical_fmt p) c.
 Proof.
-  exists PatchParse, [], wit_shadow, [], (s2l "diff"), [s2l "-U0"; s2l "HEAD"; s2l "--"; s2l "--no-ext-diff"], CExtDiff.
+  exists PatchParse, [], wit_patience, [], (s2l "diff"), [s2l "--patience"; s2l "HEAD"], CAlgorithm.
   split; [vm_compute; reflexivity|]. split; [vm_compute; tauto|]. vm_compute. discriminate.
 Qed.
 Print Assumptions C12_profile_pins_all_args_refuted.
@@ -149,22 +148,30 @@ Print Assumptions C12_inventory_pinned.
 
 (* ---- invocation context *)
 
-Theorem C12_global_args_normalised : forall ga root,
-  (normalised_shape ga = true -> normalize_global_args ga root = [gen_norm_flag; root]) /\
-  (normalised_shape ga = false -> normalize_global_args ga root = ga).
-Proof. intros ga root. split; [apply normalize_shape|apply normalize_other]. Qed.
+Theorem C12_global_args_normalised : forall ga root base gd,
+  (normalised_shape ga = true -> normalize_global_args ga root base gd = [gen_norm_flag; root]) /\
+  (normalised_shape ga = false -> normalize_global_args ga root base gd = other_shape_args ga root base gd).
+Proof. intros ga root base gd. split; [apply normalize_shape|apply normalize_other]. Qed.
 Print Assumptions C12_global_args_normalised.
 
-(* known class C12-K1 (F15): global args of another shape are left as typed; internal commands then run
-   in `sub` while the pathspecs git-ai passes stay relative to the work tree root *)
-Theorem C12_global_mix_refuted :
-  exists ga root, normalised_shape ga = false /\
-    normalize_global_args ga root = ga /\ ~ In root (normalize_global_args ga root).
-Proof.
-  exists [s2l "-c"; s2l "k=v"; s2l "-C"; s2l "sub"], (s2l "/w").
-  split; [reflexivity|]. split; [reflexivity|]. vm_compute. intuition discriminate.
-Qed.
-Print Assumptions C12_global_mix_refuted.
+(* the repair of class C12-K1 (F15): whatever the shape of the user's global args, internal commands
+   end up in the repository root (git's own reading of -C), provided the vector is well formed *)
+Theorem C12_global_args_end_in_root : forall ga root base gd cur,
+  path_is_relative root = false -> globals_ok (normalize_global_args ga root base gd) ->
+  final_dir git_value_globals cur (normalize_global_args ga root base gd) false = root.
+Proof. exact normalized_final_dir. Qed.
+Print Assumptions C12_global_args_end_in_root.
+
+Example C12_ex_global_mix :
+  normalize_global_args [s2l "-c"; s2l "k=v"; s2l "-C"; s2l "sub"; s2l "--git-dir=../.git"; s2l "--work-tree"; s2l ".."]
+                        (s2l "/w") (s2l "/w/sub") (s2l "/w/.git")
+  = [s2l "-c"; s2l "k=v"; s2l "-C"; s2l "sub"; s2l "--git-dir=/w/sub/../.git"; s2l "--work-tree"; s2l "/w/sub/.."; s2l "-C"; s2l "/w"]
+  /\ normalize_global_args [s2l "--work-tree=.."] (s2l "/w") (s2l "/w/sub") (s2l "../.git")
+     = [s2l "--work-tree=/w/sub/.."; s2l "--git-dir=/w/sub/../.git"; s2l "-C"; s2l "/w"]
+  /\ final_dir git_value_globals (s2l "/w")
+       (normalize_global_args [s2l "-c"; s2l "k=v"; s2l "-C"; s2l "sub"] (s2l "/w") (s2l "/w/sub") (s2l "/w/.git")) false = s2l "/w"
+  /\ final_dir git_value_globals (s2l "/w") [s2l "-c"; s2l "k=v"; s2l "-C"; s2l "sub"] false = s2l "/w/sub".
+Proof. vm_compute. repeat split. Qed.
 
 Theorem C12_no_pager : forall ga, In gen_exec_global_opt (global_args_for_exec ga).
 Proof. exact exec_globals_no_pager. Qed.
@@ -217,13 +224,11 @@ Example C12_ex_pinned :
      effective_fmt [] (args_with_internal_git_profile PatchParse ex_args).
 Proof. vm_compute. split; reflexivity. Qed.
 
-(* the hypotheses of C12_profile_pins hold for the example *)
+(* the hypothesis of C12_profile_pins holds for the example *)
 Example C12_ex_hyps :
-  exists g s r, find_sub ex_args = Some (g, s, r) /\ pins_not_outside PatchParse g r /\ survivors_tame PatchParse r.
+  exists g s r, find_sub ex_args = Some (g, s, r) /\ survivors_tame PatchParse r.
 Proof.
-  eexists _, _, _. split; [vm_compute; reflexivity|]. split.
-  - intros o Ho. vm_compute in Ho. vm_compute.
-    repeat (destruct Ho as [Ho|Ho]; [subst; intuition discriminate|]). destruct Ho.
-  - intros t Ht Hd. vm_compute in Ht.
-    repeat (destruct Ht as [Ht|Ht]; [subst; first [reflexivity | vm_compute in Hd; discriminate]|]). destruct Ht.
+  eexists _, _, _. split; [vm_compute; reflexivity|].
+  intros t Ht Hd. vm_compute in Ht.
+  repeat (destruct Ht as [Ht|Ht]; [subst; first [reflexivity | vm_compute in Hd; discriminate]|]). destruct Ht.
 Qed.
